@@ -375,6 +375,21 @@ Theorem gen_get_coordinates_bounded_partial : forall k : list bool, (length k <=
   nonempty (g_get_coordinates (from_mask k)) = nonempty (seq_segments k).
 Proof. exact IndelMapGenMain.gen_get_coordinates_bounded. Qed.
 
+Theorem gen_merge_maps_spec : forall m1 m2 : imap, WF m1 -> WF m2 -> parent_length m1 = parent_length m2 ->
+  exists m', g_merge_maps m1 m2 None = Ok m' /\ WF m' /\ abs m' = mask_merge (abs m1) (abs m2).
+Proof. exact IndelMapGenMain.gen_merge_maps_spec. Qed.
+
+Theorem gen_merge_from_mask : forall k1 k2 : list bool, count_res k1 = count_res k2 ->
+  g_merge_maps (from_mask k1) (from_mask k2) None = Ok (from_mask (mask_merge k1 k2)).
+Proof. exact IndelMapGenMain.gen_merge_from_mask. Qed.
+
+Theorem gen_spans_spec : forall m : imap, WF m -> concat (map span_mask (g_spans m)) = abs m.
+Proof. exact IndelMapGenMain.gen_spans_spec. Qed.
+
+Theorem gen_nongap_bounded_partial : forall k : list bool, (length k <= 10)%nat ->
+  nonempty (g_nongap (from_mask k)) = seg_runs k.
+Proof. exact IndelMapGenMain.gen_nongap_bounded. Qed.
+
 (** * the hypotheses are satisfiable: concrete instances *)
 Theorem wf_example : WF (from_mask [false; true; true; false; true; false; false]).
 Proof. exact IndelMapOps.wf_example_2. Qed.
